@@ -193,7 +193,7 @@ def main():
     quick = a.tier == "quick"
     TIMEOUT = 20000 if quick else 120000
     run = Run("C17", a.tier, "translation_validation")
-    n = 300 if quick else 5000
+    n = 800 if quick else 8000
     base = seed() * 1000003 + 1700
     combos = [("einsum", True), ("libtensor", True), ("einsum", False), ("libtensor", False)]
     items = [(base + k, *combos[k % 4]) for k in range(n)]
